@@ -4,13 +4,13 @@ from harness import common, gens, recv, oracles, impl
 from harness.common import Stream
 
 PID = "C05"
-LEAN_MODULES = ["Astm.Proofs.C05", "Astm.State.C05"]
+LEAN_MODULES = ["Astm.Proofs.C05", "Astm.State.C05", "Astm.Surface.C05"]
 THEOREMS = [
     "Astm.C05.timer_refines_single_deadline", "Astm.C05.one_live_timer", "Astm.C05.never_earlier",
     "Astm.C05.closes_exactly_at_deadline", "Astm.C05.silent_before_deadline", "Astm.C05.idle_forever_after_end",
     "Astm.C05.fresh_full_timeout", "Astm.C05.timeout_discards_without_delivery", "Astm.C05.never_closed_if_paced",
     "Astm.C05.example_timeline", "Astm.tstep_refines",
-    "Astm.C05.anchored_code_keeps_no_other_state",
+    "Astm.C05.anchored_code_keeps_no_other_state", "Astm.C05.anchored_code_keeps_its_signatures",
 ]
 RULE = ("timed histories on a fake event loop with an integer virtual clock, and on asyncio's own selector event loop with "
         "only its clock replaced by a virtual one: unit sequences (ENQ, frames, corrupted frames, "
